@@ -506,6 +506,14 @@ func (L *layoutCtx) segs(v ssa.Value) [][]Seg {
 				}
 			}
 		}
+	case *ssa.MakeSlice:
+		// make([]byte, n, …): n zero bytes (nothing for n = 0)
+		if n, ok := constInt(x.Len); ok && n >= 0 && n <= 64 {
+			if n == 0 {
+				return [][]Seg{{}}
+			}
+			return one(Seg{Kind: "const", W: int(n), Bytes: make([]byte, n)})
+		}
 	case *ssa.Convert:
 		if s, ok := constString(x.X); ok {
 			return one(Seg{Kind: "const", W: len(s), Bytes: []byte(s)})
@@ -984,6 +992,22 @@ func (P *Prog) affineLen(v ssa.Value, c *int64, lens *[]string) bool {
 					return true
 				}
 			}
+			// a value measured before it is put into its field: named after the one field it is stored into
+			if refs := a.Referrers(); refs != nil {
+				name, n := "", 0
+				for _, r := range *refs {
+					if st, ok := r.(*ssa.Store); ok && st.Val == a {
+						if p, ok := fieldPath(st.Addr); ok {
+							name = p
+							n++
+						}
+					}
+				}
+				if n == 1 {
+					*lens = append(*lens, name)
+					return true
+				}
+			}
 			if sl, ok := a.(*ssa.Slice); ok {
 				if fa, ok := sl.X.(*ssa.FieldAddr); ok {
 					if arr, ok := derefType(fa.Type()).Underlying().(*types.Array); ok {
@@ -1010,6 +1034,10 @@ func findPutValuesDepth(fn *ssa.Function, depth int) []ssa.Value {
 			a := ci.Common().Args
 			out = append(out, a[len(a)-1])
 		}
+	}
+	// … or spelled out as a byte pair: x[0] = byte(v >> 8); x[1] = byte(v)
+	if hi, lo, _ := bytePairStore(fn); hi != nil && lo != nil && stripConv(hi) == stripConv(lo) {
+		out = append(out, lo)
 	}
 	if len(out) == 0 && depth < 2 {
 		// the size is computed by a sibling method of the same receiver that this one hands on
